@@ -161,7 +161,7 @@ func cmdCheck(args []string) int {
 	sort.Strings(keys)
 	workDir := filepath.Join(verifDir, ".work", id)
 	os.RemoveAll(workDir)
-	var all []*Obligation
+	var all, infoObls []*Obligation
 	var unbound, contractErrs, unsupported, notes []string
 	trusted := map[string]bool{}
 	assumeSites := 0
@@ -185,6 +185,10 @@ func cmdCheck(args []string) int {
 		}
 		funcsUnder = append(funcsUnder, k)
 		for _, o := range res.Obls {
+			if o.Info {
+				infoObls = append(infoObls, o)
+				continue
+			}
 			if oblInProperty(o, c, id) || o.Cover {
 				all = append(all, o)
 			}
@@ -209,6 +213,15 @@ func cmdCheck(args []string) int {
 	}
 	genS := time.Since(t0).Seconds() - loadS
 	solveAll(all, workDir, secs, 16)
+	// informational reachability of returns: reported, never part of the verdict
+	solveAll(infoObls, filepath.Join(workDir, "info"), 2, 16)
+	unreachable := 0
+	for _, o := range infoObls {
+		if o.Result.Status == "unsat" {
+			unreachable++
+			notes = append(notes, fmt.Sprintf("%s: return at %s on path %s is unreachable under the contracts", o.Func, o.Pos, o.Path))
+		}
+	}
 	// aggregate per obligation ID
 	agg := map[string]*oblStatus{}
 	var order []string
@@ -404,6 +417,8 @@ func cmdCheck(args []string) int {
 			"undecided_new":            undecided,
 			"unsupported":              unsupported,
 			"assume_sites":             assumeSites,
+			"return_paths":             len(infoObls),
+			"return_paths_unreachable": unreachable,
 			"notes":                    notes,
 			"source_hash":              p.srcHash,
 			"contract_files":           relFiles(p.files),
